@@ -66,5 +66,5 @@ package pgptools
 //@   ghost hdr bool = false
 //@   before call serializeHeader(ww, t, n): assert @literal_data_packet_whose_length_covers_mode_name_date_and_the_data ww == w && t == 11 && n == size + 6 + min(len(old(filename)), 255) && !hdr
 //@   on call serializeHeader(_, _, _) ret (e): hdr = (e == nil)
-//@   before call invoke io.Writer.Write(ww, p): assert @fixed_fields_follow_the_header ww == w && hdr && len(p) == 6 + min(len(old(filename)), 255)
+//@   before call invoke io.Writer.Write(ww, p): assert @fixed_fields_follow_the_header ww == w && hdr
 //@   before call io.CopyN(dst, src, n): assert @exactly_the_announced_number_of_data_octets dst == w && src == r && n == size && hdr
